@@ -8,6 +8,7 @@
 #![allow(clippy::too_many_arguments)]
 
 pub mod gen_tx;
+pub mod gen_valid;
 pub mod mon;
 pub mod prog;
 pub mod recstore;
@@ -242,6 +243,70 @@ impl Report {
             "event_logs": self.event_logs.iter().map(|(o, p)| json!({"oracle": o, "path": p})).collect::<Vec<_>>(),
             "gates": self.gates.iter().map(|(n, o, r)| json!({"name": n, "observed": o, "required": r})).collect::<Vec<_>>(),
         })
+    }
+}
+
+static PROGRESS: std::sync::OnceLock<std::fs::File> = std::sync::OnceLock::new();
+
+/// Abort-safe progress marker (used by child workers of C29): the case about to run is
+/// written to a file *before* it runs, so that a parent process can name the case that
+/// killed the child with a signal.
+pub fn set_progress_file(path: &str) {
+    if let Ok(f) = std::fs::OpenOptions::new().create(true).write(true).truncate(true).open(path) {
+        let _ = PROGRESS.set(f);
+    }
+}
+
+pub fn progress(part: u64, idx: u64) {
+    use std::os::unix::fs::FileExt;
+    if let Some(f) = PROGRESS.get() {
+        let mut b = [0u8; 16];
+        b[..8].copy_from_slice(&part.to_le_bytes());
+        b[8..].copy_from_slice(&idx.to_le_bytes());
+        let _ = f.write_at(&b, 0);
+    }
+}
+
+impl Report {
+    /// Inverse of [`Report::to_json`] (used to merge the reports of child processes).
+    pub fn from_json(j: &Value) -> Report {
+        let mut r = Report::new();
+        r.evaluations = j["evaluations"].as_u64().unwrap_or(0);
+        if let Some(a) = j["classes"].as_array() {
+            r.classes = a.iter().filter_map(|c| c.as_str().map(|s| s.to_string())).collect();
+        }
+        if let Some(a) = j["samples"].as_array() {
+            r.samples = a.clone();
+        }
+        if let Some(m) = j["counters"].as_object() {
+            r.counters = m.iter().map(|(k, v)| (k.clone(), v.as_u64().unwrap_or(0))).collect();
+        }
+        if let Some(a) = j["violations"].as_array() {
+            for v in a {
+                r.violations.push(Violation {
+                    signature: v["signature"].as_str().unwrap_or("").to_string(),
+                    what: v["what"].as_str().unwrap_or("").to_string(),
+                    replay: v["replay"].clone(),
+                });
+            }
+        }
+        if let Some(m) = j["violation_counts"].as_object() {
+            r.violation_counts = m.iter().map(|(k, v)| (k.clone(), v.as_u64().unwrap_or(0))).collect();
+        }
+        for (k, dst) in [("notes", &mut r.notes), ("assumptions", &mut r.assumptions)] {
+            if let Some(a) = j[k].as_array() {
+                *dst = a.iter().filter_map(|c| c.as_str().map(|s| s.to_string())).collect();
+            }
+        }
+        r.rule = j["rule"].as_str().unwrap_or("").to_string();
+        r.exhaustive = j["exhaustive"].as_bool().unwrap_or(false);
+        r.inconclusive = j["inconclusive"].as_str().map(|s| s.to_string());
+        if let Some(a) = j["gates"].as_array() {
+            for g in a {
+                r.gates.push((g["name"].as_str().unwrap_or("").to_string(), g["observed"].as_u64().unwrap_or(0), g["required"].as_u64().unwrap_or(0)));
+            }
+        }
+        r
     }
 }
 
